@@ -390,7 +390,7 @@ func programs(r *vf.Run) []program {
 		}
 	}
 	// ----- (S) the synthetic documents the other checks generate from (they only generate, this compiles)
-	for _, sd := range []struct{ name, text string }{{"custom-unmarshalers", grammar.CustomSpec}, {"order-sensitive-shapes", grammar.ShapesSpec}, {"component-references", grammar.RefsSpec},
+	for _, sd := range []struct{ name, text string }{{"custom-unmarshalers", grammar.CustomSpec}, {"order-sensitive-shapes", grammar.ShapesSpec}, {"path-item-parameters", grammar.PathItemsSpec}, {"component-references", grammar.RefsSpec},
 		{"recursive-defaults", grammar.RecursiveDefaultsSpec}, {"recursive-oddity-1", grammar.RecursiveOddities[0]}, {"reference-cycles", grammar.CyclesSpec},
 		{"odd-enum-values-and-custom-security", grammar.Oddities[1]}, {"repeated-inline-constructs", grammar.RepeatsSpec}} { // Oddities[0] is only generated (C11): its Go types nest by value 2^40 deep, which is the compiler's problem
 		// the same document with every path item (that has no path parameter) turned into a webhook and
